@@ -154,3 +154,13 @@ func c03R9(c *Ctx) {
 func c03R10(c *Ctx) {
 	shareTraceRule(c, "C12.R1", "C03.R10", "on every explored path the step reports only declared stages and finishes no stage before the stages with a declared And-edge into it (the lifecycle tables and the provider's failure sequences agree): otherwise the run loop fails to resolve the stage node, reports the failure and cancels a run whose declared output was producible")
 }
+
+// C06: a cancellation that crashes the process reaches no plugin at all.
+func c06R10(c *Ctx) {
+	shareRule(c, "C07.R5", "C06.R10", c07R5, "the cancel-signal path dereferences the step's cancellation handler only when the step has one: cancelling a run while a plugin without a `cancel` signal handler is executing would otherwise panic in the step's goroutine (with the step lock held), so the run never returns and the other plugins are never told to stop")
+}
+
+// C17: the prepared workflow is shared by every run; the run path takes no lock around it.
+func c17R4(c *Ctx) {
+	shareRule(c, "C14.R1", "C17.R4", c14R1, "the run path writes nothing into the prepared workflow or the prepared step objects: those objects are shared by overlapping runs (parallel loop items, concurrent callers of Execute) and no lock covers them, so a lazily filled cache or memo field there is an unsynchronised write racing with the other runs' reads")
+}
